@@ -130,7 +130,7 @@ OECLS = r'class XalanOtherEncodingWriter : public XalanFormatterWriter'
 
 UNIT = Unit(
     name='c04_cdata',
-    props=['C04', 'C03'],
+    props=['C04', 'C03', 'C08'],
     blocks=[UNICODE_BLOCK],
     functions=[
         Fn(FW, r'^\s+isUTF16HighSurrogate\(', 'isUTF16HighSurrogate', 'static bool isUTF16HighSurrogate(XalanDOMChar theChar)', nloops=0, reach=False),
